@@ -43,12 +43,9 @@ fn dispatch(name: &str, s: &mut src::ReplaySrc) -> bool {
         "endpoint_reuse_f32" => intersect::endpoint_reuse_body(s),
         "intersection_in_boxes_f64" => intersect::intersection_in_boxes_body::<f64, _>(s),
         "intersection_in_boxes_f32" => intersect::intersection_in_boxes_body::<f32, _>(s),
-        "possible_intersection_overlap_grid_f64" => divide::possible_intersection_overlap_grid_body::<f64, _>(s),
         "possible_intersection_none_f64" => divide::possible_intersection_contract_body::<f64, _>(s, 0),
         "possible_intersection_point_f64" => divide::possible_intersection_contract_body::<f64, _>(s, 1),
-        "possible_intersection_overlap_f64" => divide::possible_intersection_contract_body::<f64, _>(s, 2),
         "possible_intersection_point_f32" => divide::possible_intersection_contract_body::<f32, _>(s, 1),
-        "possible_intersection_overlap_f32" => divide::possible_intersection_contract_body::<f32, _>(s, 2),
         "divide_segment_n2_instance" => divide::divide_segment_n2_instance_body(s),
         "divide_segment_contract_f64" => divide::divide_segment_contract_body::<f64, _>(s),
         "divide_segment_contract_f32" => divide::divide_segment_contract_body::<f32, _>(s),
@@ -138,4 +135,133 @@ fn twin_segint() {
         }
     }
     println!("TWIN-PASS segint: {} segment pairs on the {}x{} grid", count, N, N);
+}
+
+/// U-I4 overlap arm, bounded native stand-in (the symbolic harness for this arm exhausts CBMC's memory: eight
+/// reference-counted tuple entries whose drop order depends on symbolic comparisons).  The arm's behaviour depends only on
+/// the order type of the four collinear endpoints and on the operand / in-out flags, so this enumerates: 4 directions
+/// (horizontal, vertical, diagonal, anti-diagonal) x all positions 0..6 of the four ends with an overlap of positive length
+/// x operand flags x in-out flags, runs the REAL possible_intersection (real intersection, real divide_segment, real
+/// heap) and compares the resulting sub-segments, edge types and return code with the statement of C16.
+#[cfg(verif_replay)]
+#[test]
+fn overlap_arm_exhaustive() {
+    use super::possible_intersection::possible_intersection;
+    use super::sweep_event::{EdgeType, SweepEvent};
+    use geo_types::Coord;
+    use std::collections::BinaryHeap;
+    use std::rc::{Rc, Weak};
+    type Ev = Rc<SweepEvent<f64>>;
+    let report = |msg: String| {
+        println!("TWIN-FAIL {}", msg);
+        if let Ok(p) = std::env::var("VERIF_TWIN_OUT") {
+            let _ = std::fs::write(p, format!("bounded native check of the overlap arm of the real possible_intersection\n{}\n", msg));
+        }
+    };
+    let seg = |id: u32, p: Coord<f64>, q: Coord<f64>, subj: bool| -> (Ev, Ev) {
+        let r = SweepEvent::new_rc(id, q, false, Weak::new(), subj, true);
+        let l = SweepEvent::new_rc(id, p, true, Rc::downgrade(&r), subj, true);
+        r.set_other_event(&l);
+        (l, r)
+    };
+    let dirs: [(f64, f64); 4] = [(1.0, 0.0), (0.0, 1.0), (1.0, 1.0), (1.0, -1.0)];
+    let mut cases = 0u64;
+    for (di, &(dx, dy)) in dirs.iter().enumerate() {
+        let at = |k: i32| Coord { x: 1.0 + dx * k as f64, y: 7.0 + dy * k as f64 };
+        for t0 in 0..6 {
+            for t1 in (t0 + 1)..6 {
+                for t2 in 0..6 {
+                    for t3 in (t2 + 1)..6 {
+                        if t0.max(t2) >= t1.min(t3) {
+                            continue; // no overlap of positive length
+                        }
+                        for flags in 0..16u8 {
+                            let (s1, s2) = (flags & 1 != 0, flags & 2 != 0);
+                            let (io1, io2) = (flags & 4 != 0, flags & 8 != 0);
+                            cases += 1;
+                            let (se1, o1) = seg(1, at(t0), at(t1), s1);
+                            let (se2, o2) = seg(2, at(t2), at(t3), s2);
+                            se1.set_in_out(io1, false);
+                            se2.set_in_out(io2, false);
+                            let mut queue: BinaryHeap<Ev> = BinaryHeap::new();
+                            let code = possible_intersection(&se1, &se2, &mut queue);
+                            let ctx = format!("direction {:?}, first segment {}..{} (subject {}), second {}..{} (subject {})", dirs[di], t0, t1, s1, t2, t3, s2);
+                            // all events: the four originals + what was pushed
+                            let mut all: Vec<Ev> = vec![se1.clone(), o1.clone(), se2.clone(), o2.clone()];
+                            let pushed = queue.into_vec();
+                            all.extend(pushed.iter().cloned());
+                            // pieces: every left event with its partner; must be mutually linked, left first, non-zero length
+                            let mut pieces: Vec<(i32, i32, bool)> = Vec::new();
+                            let pos = |c: Coord<f64>| -> i32 { if dx != 0.0 { ((c.x - 1.0) / dx).round() as i32 } else { ((c.y - 7.0) / dy).round() as i32 } };
+                            for e in &all {
+                                let o = match e.get_other_event() {
+                                    Some(o) => o,
+                                    None => { report(format!("{}: event without partner", ctx)); return; }
+                                };
+                                if !Rc::ptr_eq(&o.get_other_event().unwrap(), e) {
+                                    report(format!("{}: pieces not mutually linked", ctx));
+                                    return;
+                                }
+                                if e.is_left() {
+                                    if o.is_left() || !(e.is_before(&o)) || e.point == o.point {
+                                        report(format!("{}: piece {:?}-{:?} is not a proper left/right pair", ctx, e.point, o.point));
+                                        return;
+                                    }
+                                    if e.point != at(pos(e.point)) || o.point != at(pos(o.point)) {
+                                        report(format!("{}: division at a point that is not an existing endpoint: {:?}-{:?}", ctx, e.point, o.point));
+                                        return;
+                                    }
+                                    pieces.push((pos(e.point), pos(o.point), e.is_subject));
+                                }
+                            }
+                            pieces.sort();
+                            // expectation from the statement
+                            let mut want: Vec<(i32, i32, bool)> = Vec::new();
+                            let cut = |a: (i32, i32), b: (i32, i32), subj: bool, want: &mut Vec<(i32, i32, bool)>| {
+                                let mut c = vec![a.0];
+                                for x in [b.0, b.1] {
+                                    if a.0 < x && x < a.1 && !c.contains(&x) { c.push(x); }
+                                }
+                                c.push(a.1);
+                                c.sort();
+                                for w in c.windows(2) { want.push((w[0], w[1], subj)); }
+                            };
+                            if s1 == s2 {
+                                want.push((t0, t1, s1));
+                                want.push((t2, t3, s2));
+                            } else {
+                                cut((t0, t1), (t2, t3), s1, &mut want);
+                                cut((t2, t3), (t0, t1), s2, &mut want);
+                            }
+                            want.sort();
+                            if pieces != want {
+                                report(format!("{}: sub-segments after the step {:?}, expected {:?}", ctx, pieces, want));
+                                return;
+                            }
+                            if pushed.len() != 2 * (want.len() - 2) {
+                                report(format!("{}: {} events pushed for {} divisions", ctx, pushed.len(), want.len() - 2));
+                                return;
+                            }
+                            let want_code = if s1 == s2 { 0 } else if t0 == t2 { 2 } else { 3 };
+                            if code != want_code {
+                                report(format!("{}: return code {}, expected {}", ctx, code, want_code));
+                                return;
+                            }
+                            let (e1, e2) = (se1.get_edge_type(), se2.get_edge_type());
+                            let typed_ok = if s1 != s2 && t0 == t2 {
+                                e2 == EdgeType::NonContributing && e1 == if io1 == io2 { EdgeType::SameTransition } else { EdgeType::DifferentTransition }
+                            } else {
+                                e1 == EdgeType::Normal && e2 == EdgeType::Normal
+                            };
+                            if !typed_ok {
+                                report(format!("{}: edge types {:?} / {:?}", ctx, e1, e2));
+                                return;
+                            }
+                        }
+                    }
+                }
+            }
+        }
+    }
+    println!("TWIN-PASS overlap_arm_exhaustive: {} configurations", cases);
 }
